@@ -18,9 +18,11 @@ def check(ctx):
     reach = M.reachable([RUN])
     ctx.floor('C07.S1', 'functions reachable from BacktestTradingSession.run', len(reach), 60)
     # ---- S1: which market-data readers are reachable
+    from ..lib import private_closure
+    accessors = private_closure(M, ['CSVDailyBarDataSource.get_bid', 'CSVDailyBarDataSource.get_ask'])
     readers = {fn.qn for fn, n in reads_of_attr(M, 'asset_bid_ask_frames')}
     for q in sorted(readers & reach):
-        ctx.require(q in ('CSVDailyBarDataSource.get_bid', 'CSVDailyBarDataSource.get_ask'), 'C07.S1',
+        ctx.require(q in accessors, 'C07.S1',
                     'bid/ask frames are read during a run only by the point-in-time accessors (%s)' % q, ctx.fn(q).site(), key='C07.S1|frame-reader|%s' % q)
     ctx.require(bool(readers & reach), 'C07.S1', 'the run reaches the point-in-time accessors', None)
     raw = {fn.qn for fn, n in reads_of_attr(M, 'asset_bar_frames')}
